@@ -9,16 +9,44 @@ From PKGen Require Import LogSites.
 Import ListNotations.
 Open Scope string_scope.
 
-(* T-obligation: every observable site (INFO+ logging call, raise, result message, print) of the
-   package formats only literals and arguments of a non-secret syntactic class. *)
-Theorem logsites_safe : forallb (site_ok pk_exc_classes) log_sites = true.
+(* T-obligation, full strength: every observable site (INFO+ logging call, raise, result message, print)
+   of the package formats only literals and arguments of a non-secret syntactic class, and nothing read
+   from the request being decoded.  REFUTED by the faithful table (known finding C20-decoder-field-echo). *)
+Definition logsites_safe_statement : Prop := forallb (site_ok false pk_exc_classes) log_sites = true.
+
+Theorem logsites_safe_refuted :
+  exists s, In s log_sites /\ observable (s_kind s) = true /\ site_ok false pk_exc_classes s = false.
+Proof.
+  destruct (find (fun s => negb (site_ok false pk_exc_classes s)) log_sites) as [s|] eqn:E.
+  - exists s. apply find_some in E. destruct E as [Hin Hs]. apply negb_true_iff in Hs.
+    split; [exact Hin|]. split; [|exact Hs].
+    unfold site_ok in Hs. apply orb_false_iff in Hs. destruct Hs as [Ho _]. apply negb_false_iff in Ho. exact Ho.
+  - exfalso. revert E. vm_compute. discriminate.
+Qed.
+Print Assumptions logsites_safe_refuted.
+
+(* ... the partial theorem excludes exactly the decoder's wire-field echo ... *)
+Theorem logsites_safe_partial : forallb (site_ok true pk_exc_classes) log_sites = true.
 Proof. vm_compute. reflexivity. Qed.
-Print Assumptions logsites_safe.
+Print Assumptions logsites_safe_partial.
+
+(* ... which occurs at exactly the pinned sites, and every other site meets the full-strength claim. *)
+Theorem wire_echo_pinned : wire_sites_of log_sites = wire_echo_sites.
+Proof. vm_compute. reflexivity. Qed.
+Print Assumptions wire_echo_pinned.
+
+Theorem logsites_safe_outside_wire_echo : forall s,
+  In s log_sites -> has_wire s = false -> site_ok false pk_exc_classes s = true.
+Proof.
+  intros s Hin Hw. rewrite (no_wire_full_strength pk_exc_classes s Hw).
+  pose proof logsites_safe_partial as H. rewrite forallb_forall in H. exact (H s Hin).
+Qed.
+Print Assumptions logsites_safe_outside_wire_echo.
 
 (* ... so no part of an observable site is a secret-bearing or unrecognised expression. *)
 Theorem logsites_no_secret_part : forall s,
-  In s log_sites -> observable (s_kind s) = true -> existsb is_secretish (s_parts s) = false.
-Proof. exact (site_ok_no_secret_part pk_exc_classes log_sites logsites_safe). Qed.
+  In s log_sites -> observable (s_kind s) = true -> existsb (is_secretish true) (s_parts s) = false.
+Proof. exact (site_ok_no_secret_part true pk_exc_classes log_sites logsites_safe_partial). Qed.
 Print Assumptions logsites_no_secret_part.
 
 (* The runtime remainder (third-party exception text) is exactly the hand-pinned list. *)
@@ -27,7 +55,7 @@ Proof. vm_compute. reflexivity. Qed.
 Print Assumptions remainder_pinned.
 
 Theorem logsites_strict_outside_remainder : forall s,
-  In s log_sites -> ~ In (s_file s, s_func s) foreign_exc_remainder -> site_ok_strict pk_exc_classes s = true.
+  In s log_sites -> ~ In (s_file s, s_func s) foreign_exc_remainder -> site_ok_strict true pk_exc_classes s = true.
 Proof. intros s H1 H2. apply (outside_remainder_strict pk_exc_classes log_sites s H1). rewrite remainder_pinned. exact H2. Qed.
 Print Assumptions logsites_strict_outside_remainder.
 
@@ -55,9 +83,9 @@ Print Assumptions messages_secret_free.
 Theorem emission_wf : forall e,
   (ev_site e < List.length log_sites)%nat ->
   observable (s_kind (nth (ev_site e) log_sites dummy_site)) = true ->
-  (forall fs, to_frags pk_exc_classes (s_parts (nth (ev_site e) log_sites dummy_site)) = Some fs -> args_ok fs (ev_args e) = true) ->
+  (forall fs, to_frags true pk_exc_classes (s_parts (nth (ev_site e) log_sites dummy_site)) = Some fs -> args_ok fs (ev_args e) = true) ->
   wf_event pk_exc_classes log_sites e = true.
-Proof. exact (table_safe_event_wf pk_exc_classes log_sites logsites_safe). Qed.
+Proof. exact (table_safe_event_wf pk_exc_classes log_sites logsites_safe_partial). Qed.
 Print Assumptions emission_wf.
 
 (* render: the text is a concatenation of table literals and argument renderings. *)
@@ -66,8 +94,8 @@ Theorem render_is_concat : forall fs args t,
 Proof. exact render_pieces. Qed.
 Print Assumptions render_is_concat.
 
-(* render_no_secret, in the form that can be stated usefully: arguments of the closed classes cannot
-   carry 24 hexadecimal digits in a row nor more than 200 characters. *)
+(* render_no_secret, in the form that can be stated usefully: arguments of the closed classes (including
+   the decoder's wire-field echo) cannot carry 24 hexadecimal digits in a row nor more than 200 characters. *)
 Theorem render_no_secret_closed : forall c a,
   closed_class c = true -> arg_ok c a = true -> (max_run hexchars a < 24)%nat /\ (String.length a <= 200)%nat.
 Proof. intros c a H1 H2; split; [eapply closed_arg_no_hex_run|eapply closed_arg_short]; eauto. Qed.
@@ -86,7 +114,7 @@ Example table_has_observable_sites_with_arguments :
         existsb (fun p => match p with SLit _ => false | _ => true end) (s_parts s)) log_sites))%nat = true.
 Proof. vm_compute. reflexivity. Qed.
 Example table_has_debug_only_secrets :
-  existsb (fun s => negb (observable (s_kind s)) && existsb is_secretish (s_parts s)) log_sites = true.
+  existsb (fun s => negb (observable (s_kind s)) && existsb (is_secretish true) (s_parts s)) log_sites = true.
 Proof. vm_compute. reflexivity. Qed.
 Example some_wf_history_exists :
   exists h, h <> [] /\ forallb (wf_event demo_pk demo_sites) h = true.
